@@ -31,7 +31,8 @@ REACH = {"quick": {"features:0": 100, "null-geometry": 300, "hostile-member-name
 GEOMS = [{"type": "Point", "coordinates": [24.94, 60.17]}, {"type": "LineString", "coordinates": [[0, 0], [1.5, 2]]},
          {"type": "Polygon", "coordinates": [[[0, 0], [1, 0], [1, 1], [0, 0]]]}, {"type": "MultiPolygon", "coordinates": [[[[0, 0], [1, 0], [1, 1], [0, 0]]]]},
          {"type": "GeometryCollection", "geometries": [{"type": "Point", "coordinates": [1, 2]}]}, None]
-MEMBER_NAMES = ["name", "crs", "bbox", "x-meta", "with space", 'quo"te', "back\\slash", "ünï", "日本", "tab\tname", "new\nline", "a/b"]
+MEMBER_NAMES = ["name", "crs", "bbox", "x-meta", "with space", 'quo"te', "back\\slash", "ünï", "日本", "tab\tname", "new\nline", "a/b",
+                "feature", "feat", "s", "t", "e", "", "typ", "Features", "properties", "geometry"]
 MEMBER_VALUES = ["text", 3, 2.5, True, None, [1, "a", None, {"k": [1.5]}], {"type": "name", "properties": {"name": "urn:ogc:def:crs:OGC:1.3:CRS84"}},
                  {"nested": {"deep": [1, {"x": 'q"uote'}]}}, "back\\slash \"q\"", [0.0, 1.0, 2.0, 3.0],
                  # characters some text utilities treat as line boundaries, at several depths
